@@ -1263,4 +1263,114 @@ Proof.
   eexists _, _. split; [reflexivity|]. split; [left; reflexivity|]. splits; auto.
   eapply ext_trans; [apply ext_alloc | exact E1 | intros i [] | intros i _ I; exact I].
 Qed.
+
+(* ---------------- proximal_convex_conj_l1:  out = diff / (max(|diff|, lam) / lam) ---------------- *)
+Definition ccl1_tail : list st :=
+  [TUAbs (RTmp 0) ROut; TUMaxS ROut (SPar 1) ROut; TIDivS ROut (SPar 1); TDivide (RTmp 0) ROut ROut].
+Definition ccl1 (lam : R) (dd : list R) : list R :=
+  rdiv dd (rscal (1 / lam) (map (fun v => Rmax v lam) (map Rabs dd))).
+Lemma ccl1_den_nz lam (l : list R) : (0 < lam)%R ->
+  Forall (fun v => v <> 0%R) (rscal (1 / lam) (map (fun v => Rmax v lam) l)).
+Proof.
+  intros Hl. apply Forall_forall. intros v I. unfold rscal in I.
+  apply in_map_iff in I as (u & <- & I). apply in_map_iff in I as (w & <- & _).
+  pose proof (Rmax_r w lam). assert (0 < 1 / lam)%R by (apply Rdiv_lt_0_compat; lra).
+  assert (0 < 1 / lam * Rmax w lam)%R by (apply Rmult_lt_0_compat; lra). lra.
+Qed.
+
+Lemma ccl1_tail_ok sp vecs sig lam (s : storeR) x y d dd dy :
+  (0 < lam)%R -> wf_store s ->
+  rd s d = Some (sp, cl dd) -> rd s y = Some (sp, dy) -> d <> y ->
+  exists e' s', exec_sts junk (inst_leaf sp sp [Some sig; Some lam] vecs) (env_diff x y d) ccl1_tail s = Ok e' s' /\
+    rd s' y = Some (sp, cl (ccl1 lam dd)) /\ ext s s' [y] /\ wf_store s'.
+Proof.
+  intros Hl W Ed Ey Ndy. unfold ccl1_tail, env_diff, inst_leaf. interp.
+  assert (Ly : (y < length s)%nat) by (eapply rd_lt; exact Ey).
+  assert (Ldd : length dd = fst sp) by (eapply wf_len; eauto).
+  rewrite (do_map_clean _ Rabs _ _ _ _ _ _ (fun u => eq_refl) Ed Ey).
+  set (s1 := upd s y (sp, cl (map Rabs dd))).
+  assert (Ey1 : rd s1 y = Some (sp, cl (map Rabs dd))) by (apply rd_upd_same; exact Ly).
+  rewrite (do_map_clean _ (fun v => Rmax v lam) _ _ _ _ _ _ (fun u => nmax_some u lam) Ey1 Ey1).
+  set (s2 := upd s1 y (sp, cl (map (fun v => Rmax v lam) (map Rabs dd)))).
+  assert (Ly1 : (y < length s1)%nat) by (unfold s1; rewrite upd_length; exact Ly).
+  assert (Ey2 : rd s2 y = Some (sp, cl (map (fun v => Rmax v lam) (map Rabs dd)))) by (apply rd_upd_same; exact Ly1).
+  assert (W1 : wf_store s1) by (apply wf_upd; [exact W | rewrite cl_length, map_length; exact Ldd]).
+  assert (W2 : wf_store s2) by (apply wf_upd; [exact W1 | rewrite cl_length, !map_length; exact Ldd]).
+  scalnorm. rewrite odiv_some by lra.
+  rewrite (do_iscal_clean _ _ _ _ _ W2 Ey2).
+  set (den := rscal (1 / lam) (map (fun v => Rmax v lam) (map Rabs dd))).
+  set (s3 := upd s2 y (sp, cl den)).
+  assert (Ly2 : (y < length s2)%nat) by (unfold s2; rewrite upd_length; exact Ly1).
+  assert (Ey3 : rd s3 y = Some (sp, cl den)) by (apply rd_upd_same; exact Ly2).
+  assert (Ed3 : rd s3 d = Some (sp, cl dd)).
+  { unfold s3, s2, s1. rewrite !rd_upd_other by exact Ndy. exact Ed. }
+  rewrite (do_divide_clean _ _ _ _ _ _ _ _ (ccl1_den_nz lam _ Hl) Ed3 Ey3 Ey3).
+  fold (ccl1 lam dd).
+  assert (Lden : length den = fst sp) by (unfold den; rewrite rscal_length, !map_length; exact Ldd).
+  assert (W3 : wf_store s3) by (apply wf_upd; [exact W2 | rewrite cl_length; exact Lden]).
+  eexists _, _. split; [reflexivity|].
+  assert (E03 : ext s s3 [y]).
+  { eapply ext_trans_same; [| eapply ext_upd; exact Ey2].
+    eapply ext_trans_same; [eapply ext_upd; exact Ey | eapply ext_upd; exact Ey1]. }
+  eapply (ip_finish s s3 y []); [exact E03 | exact W3 | exact Ey3 |].
+  unfold ccl1. rewrite rdiv_length; [exact Ldd|]. fold den. congruence.
+Qed.
+
+Lemma prox_cc_l1_ip sp ro sig lam :
+  (0 < lam)%R ->
+  raw_ip_vec (fun x o => exec_body junk (inst_leaf sp sp [Some sig; Some lam] []) (c_ip cls_ProximalConvexConjL1) x (Some o))
+    sp sp ro [] (fun d => ccl1 lam d).
+Proof.
+  intros Hl s x y dx dy W G Ex Ey Nxy Ny _.
+  unfold cls_ProximalConvexConjL1, exec_body. cbn [c_ip b_st b_ret]. fold ccl1_tail.
+  rewrite exec_sts_cons.
+  destruct (ccl1_tail_ok sp [] sig lam s x y x dx dy Hl W Ex Ey Nxy) as (e' & s' & He & Er & E1 & W1).
+  unfold bind at 2. cbn [exec_st eval_ex lookup lift_opt bindref e_x e_out e_tmp e_sc e_last ret]. unfold bind at 2.
+  cbn [ret]. fold (env_diff x y x). unfold bind. rewrite He. cbn [ret].
+  eexists _, _. split; [reflexivity|]. split; [left; reflexivity|]. splits; assumption.
+Qed.
+Lemma prox_cc_l1_g_ip sp ro sig lam v dv :
+  (0 < lam)%R -> In (v, sp, dv) ro ->
+  raw_ip_vec (fun x o => exec_body junk (inst_leaf sp sp [Some sig; Some lam] [v]) (c_ip cls_ProximalConvexConjL1_g) x (Some o))
+    sp sp ro [] (fun d => ccl1 lam (rlin (qr (1 # 1)) (- sig) d dv)).
+Proof.
+  intros Hl Iv s x y dx dy W G Ex Ey Nxy Ny _.
+  pose proof (G _ _ _ Iv) as Ev.
+  unfold cls_ProximalConvexConjL1_g, exec_body. cbn [c_ip b_st b_ret]. fold ccl1_tail.
+  rewrite !exec_sts_cons.
+  assert (Lx : (x < length s)%nat) by (eapply rd_lt; exact Ex).
+  assert (Ly : (y < length s)%nat) by (eapply rd_lt; exact Ey).
+  assert (Lv : (v < length s)%nat) by (eapply rd_lt; exact Ev).
+  set (d := length s). set (s0 := s ++ [(sp, junkbuf junk d (fst sp))]).
+  set (dd := rlin (qr (1 # 1)) (- sig) dx dv).
+  assert (Ldd : length dd = fst sp).
+  { unfold dd. rewrite rlin_length; [eapply wf_len; eauto|]. rewrite (wf_len _ _ _ _ W Ex), (wf_len _ _ _ _ W Ev). reflexivity. }
+  set (s1 := s ++ [(sp, cl dd)]).
+  assert (W1 : wf_store s1) by (apply wf_alloc; [exact W | rewrite cl_length; exact Ldd]).
+  assert (Ey1 : rd s1 y = Some (sp, dy)) by (unfold s1; rewrite rd_app_old; assumption).
+  assert (Ed1 : rd s1 d = Some (sp, cl dd)) by apply rd_app_new.
+  destruct (ccl1_tail_ok sp [v] sig lam s1 x y d dd dy Hl W1 Ed1 Ey1 ltac:(unfold d; lia))
+    as (e' & s' & He & Er & E1 & W').
+  assert (H1 : exec_st junk (inst_leaf sp sp [Some sig; Some lam] [v])
+                 {| e_x := VElem x; e_out := Some (VElem y); e_tmp := []; e_sc := []; e_last := VNone |}
+                 (TLet (RTmp 0) (XNew SpDom)) s = Ok (env_diff x y d) s0).
+  { unfold inst_leaf. cbv beta iota zeta delta [exec_st eval_ex lookup lift_opt bindref e_x e_out e_tmp e_sc e_last
+                                                 sel_space i_dom bind ret].
+    rewrite alloc_empty_eq. reflexivity. }
+  assert (H2 : exec_st junk (inst_leaf sp sp [Some sig; Some lam] [v]) (env_diff x y d)
+                 (TLincomb (RTmp 0) (SLit (1 # 1)) RX (Some (SNeg (SPar 0), RVec 0))) s0 = Ok (env_diff x y d) s1).
+  { unfold inst_leaf, env_diff.
+    cbv beta iota zeta delta [exec_st eval_ex lookup lift_opt bindref e_x e_out e_tmp e_sc e_last ref_id elem_id
+                              eval_scal opt2 i_vecs i_pars nth_error assoc Nat.eqb bind ret].
+    scalnorm.
+    assert (W0 : wf_store s0) by (apply wf_alloc; [exact W | apply junkbuf_length]).
+    assert (Ex0 : rd s0 x = Some (sp, cl dx)) by (unfold s0; rewrite rd_app_old; assumption).
+    assert (Ev0 : rd s0 v = Some (sp, cl dv)) by (unfold s0; rewrite rd_app_old; assumption).
+    rewrite (do_lincomb_clean _ _ _ _ _ _ _ _ _ _ W0 Ex0 Ev0 (rd_app_new _ _)).
+    unfold s0, d. rewrite upd_app_last. reflexivity. }
+  unfold bind at 1. rewrite (bind_Ok _ _ _ _ _ H1). cbv beta. rewrite exec_sts_cons.
+  rewrite (bind_Ok _ _ _ _ _ H2). cbv beta. rewrite He. cbn [ret].
+  eexists _, _. split; [reflexivity|]. split; [left; reflexivity|]. splits; auto.
+  eapply ext_trans; [apply ext_alloc | exact E1 | intros i [] | intros i _ I; exact I].
+Qed.
 End Classes.
